@@ -242,9 +242,22 @@ class C05(Property):
             w = r.interface_width
             e_w = abs(w - d["interface_width"]) / d["interface_width"] if w is not None else float("inf")
             ctx.require(type(r) is DiffuseDroplet, "class", f"{type(r).__name__}")
-            ctx.require(e_pos <= 1e-4, f"position:{fam}:{opt}", f"position error {e_pos} cells (found {r.position}, true {c})")
-            ctx.require(e_rad <= 1e-4, f"radius:{fam}:{opt}", f"relative radius error {e_rad} (found {r.radius}, true {d['radius']})")
-            ctx.require(e_w <= 1e-4, f"width:{fam}:{opt}", f"relative width error {e_w} (found {w}, true {d['interface_width']})")
+            tag = ""
+            if max(e_pos, e_rad, e_w) > 1e-4 and spec.get("fine") and abs(a) < 0.5 and len(drops) == 1:
+                # discriminator of the recorded finding F29 (finely resolved droplet in a low-contrast image: the solver's absolute
+                # default tolerances end the fit early): does a tight tolerance repair this very request?
+                try:
+                    tight = locate_droplets(field, threshold=thr, refine=True, refine_args={**rargs, "tolerance": 1e-12})
+                    if len(tight) == 1:
+                        t0 = tight[0]
+                        ok_t = dist_to(t0) / dmax <= 1e-4 and abs(t0.radius - d["radius"]) / d["radius"] <= 1e-4 and t0.interface_width is not None and abs(t0.interface_width - d["interface_width"]) / d["interface_width"] <= 1e-4
+                        if ok_t:
+                            tag = "+low-contrast-default-tolerance"
+                except Exception:  # noqa: BLE001 - the discriminator is not judged
+                    pass
+            ctx.require(e_pos <= 1e-4, f"position:{fam}:{opt}{tag}", f"position error {e_pos} cells (found {r.position}, true {c})")
+            ctx.require(e_rad <= 1e-4, f"radius:{fam}:{opt}{tag}", f"relative radius error {e_rad} (found {r.radius}, true {d['radius']})")
+            ctx.require(e_w <= 1e-4, f"width:{fam}:{opt}{tag}", f"relative width error {e_w} (found {w}, true {d['interface_width']})")
 
 
 PROP = C05()
